@@ -38,7 +38,17 @@ def run(repo: Repo, rep: Report, tier: str) -> None:
     rep.require(len(tries) == 1, f"R16.1: expected one try around converter.structure in structure_from_dict, found {len(tries)}")
     for tr in tries:
         catches_all = any(h.type is None or norm(h.type) in ("Exception", "BaseException") for h in tr.handlers)
-        all_value = all(any(isinstance(s, ast.Raise) and s.exc is not None and norm(SL.inline(s.exc)).startswith("ValueError(") and s.cause is not None for s in h.body) for h in tr.handlers)
+        def _is_value_error(e: ast.AST) -> bool:
+            ei = SL.inline(e)
+            if norm(ei).startswith("ValueError("):
+                return True
+            # a factory of the module whose every return is a ValueError(...) (`raise _conversion_error(...) from e`)
+            if isinstance(ei, ast.Call) and isinstance(ei.func, ast.Name) and ei.func.id in conv.functions:
+                rets = [r for r in own_nodes(conv.functions[ei.func.id].node) if isinstance(r, ast.Return)]
+                return bool(rets) and all(r.value is not None and norm(r.value).startswith("ValueError(") for r in rets)
+            return False
+
+        all_value = all(any(isinstance(s, ast.Raise) and s.exc is not None and _is_value_error(s.exc) and s.cause is not None for s in h.body) for h in tr.handlers)
         names_field = any("_extract_errors" in full(h) for h in tr.handlers)
         sub = f"{conv.relpath}:structure_from_dict error conversion"
         if catches_all and all_value and names_field:
@@ -47,7 +57,10 @@ def run(repo: Repo, rep: Report, tier: str) -> None:
             rep.violation("R16.1", sub, f"{sfd.fq}|errors|all={catches_all}|value={all_value}|path={names_field}",
                           "a decoding failure can leave structure_from_dict as something other than ValueError / without the offending field", sfd.loc(tr))
     ee = conv.functions.get("_extract_errors")
-    if ee is not None and "attribute" in full(ee.node) and "ClassValidationError" in full(ee.node):
+    ee_txt = ""
+    if ee is not None:
+        ee_txt = full(ee.node) + " " + " ".join(full(conv.functions[x.id].node) for x in ast.walk(ee.node) if isinstance(x, ast.Name) and x.id in conv.functions and x.id != ee.name)
+    if ee is not None and "attribute" in ee_txt and "ClassValidationError" in ee_txt:
         rep.ok("R16.1", f"{conv.relpath}:_extract_errors", "descends ClassValidationError / IterableValidationError and builds the field path from cattrs' notes", ee.loc())
     else:
         rep.violation("R16.1", f"{conv.relpath}:_extract_errors", "extract-errors-shape", "_extract_errors no longer builds a field path", conv.relpath)
